@@ -30,6 +30,9 @@ let n_of_int n = if n = 0 then M.N0 else M.Npos (pos_of_int n)
 let rb = function M.Ok true -> "T" | M.Ok false -> "F" | M.Panic -> "P"
 let pb b = if b then "T" else "F"
 
+let int_of_z = function M.Z0 -> 0 | M.Zpos p -> int_of_pos p | M.Zneg p -> - (int_of_pos p)
+let strf f = fun a -> f (bytes_of_hex (List.hd a))
+
 let split_ws s = List.filter (fun x -> x <> "") (String.split_on_char ' ' s)
 
 (* each entry: name -> function from the line's fields to the result string *)
@@ -40,6 +43,29 @@ let table : (string * (string list -> string)) list = [
   "isMaxUUID", (fun a -> rb (M.isMaxUUID (bytes_of_hex (List.hd a))));
   "isValidUUIDVersionAndVariant", (fun a -> rb (M.isValidUUIDVersionAndVariant (bytes_of_hex (List.hd a))));
   "isValidHexChar", (fun a -> pb (M.isValidHexChar byte_tab.(int_of_string (List.hd a))));
+  "IsValidEmail", strf (fun s -> rb (M.isValidEmail s));
+  "findAtSymbol", strf (fun s -> string_of_int (int_of_z (M.findAtSymbol s)));
+  "isValidLocalPart", strf (fun s -> rb (M.isValidLocalPart s));
+  "isValidLocalPartFormat", strf (fun s -> rb (M.isValidLocalPartFormat s));
+  "isValidLocalPartChars", strf (fun s -> pb (M.isValidLocalPartChars s));
+  "isValidLocalChar", (fun a -> pb (M.isValidLocalChar (n_of_int (int_of_string (List.hd a)))));
+  "isValidLocalSpecialChar", (fun a -> pb (M.isValidLocalSpecialChar (n_of_int (int_of_string (List.hd a)))));
+  "isValidDomainPart", strf (fun s -> rb (M.isValidDomainPart s));
+  "validateDomainLabels", strf (fun s -> rb (M.validateDomainLabels s));
+  "isValidDomainLabel", strf (fun s -> rb (M.isValidDomainLabel s));
+  "isValidDomainLabelChars", strf (fun s -> pb (M.isValidDomainLabelChars s));
+  "isValidDomainChar", (fun a -> pb (M.isValidDomainChar (n_of_int (int_of_string (List.hd a)))));
+  "IsValidURL", strf (fun s -> rb (M.isValidURL s));
+  "findSchemeEnd", strf (fun s -> string_of_int (int_of_z (M.findSchemeEnd s)));
+  "isValidSchemeChar", (fun a -> pb (M.isValidSchemeChar byte_tab.(int_of_string (List.hd a))));
+  "hasInvalidChars", strf (fun s -> pb (M.hasInvalidChars s));
+  "validateSchemeWithoutHost", (fun a -> pb (M.validateSchemeWithoutHost (bytes_of_hex (List.hd a)) (nat_of_int (int_of_string (List.nth a 1)))));
+  "validateSchemeWithHost", (fun a -> rb (M.validateSchemeWithHost (bytes_of_hex (List.hd a)) (nat_of_int (int_of_string (List.nth a 1)))));
+  "isValidHostStart", (fun a -> pb (M.isValidHostStart byte_tab.(int_of_string (List.hd a))));
+  "IsValidAlpha", strf (fun s -> pb (M.isValidAlpha s));
+  "IsNumeric", strf (fun s -> pb (M.isNumeric s));
+  "RuneCount", strf (fun s -> string_of_int (int_of_nat (M.rune_count s)));
+  "Runes", strf (fun s -> String.concat "," (List.map (fun r -> string_of_int (int_of_n r)) (M.runes s)));
 ]
 
 let () =
